@@ -6,7 +6,8 @@ evidence file.
 """
 
 CRATES = {
-    "core": {"dir": "/verif/kani/core-harness"},
+    # -Z stubbing: c18_multi uses #[kani::stub] on a few thorough-tier harnesses (no effect on the others)
+    "core": {"dir": "/verif/kani/core-harness", "kani_args": ["-Z", "stubbing"]},
     "nomt": {"dir": "/verif/kani/nomt-harness"},
 }
 
@@ -104,30 +105,26 @@ def _c18():
         ("c18_mv_1leaf_s2", "1 leaf path, 2 siblings", "quick", 6),
         ("c18_mv_1term_s1", "1 terminator(depth 3) path, 1 sibling", "quick", 6),
         ("c18_mq_1leaf_s1", "1 leaf path, 1 sibling, + find_index_for/confirm_* on a symbolic query", "quick", 12),
-        ("c18_mq_2leaf_s1", "2 leaf paths, 1 sibling, + find_index_for/confirm_* on a symbolic query", "thorough", 30),
+
     ]
-    mm = [
-        ("c18_mm_2leaf_s0_a", "2 leaf paths, 0 siblings, depth0 in {0,1,2,3}", "quick"),
-        ("c18_mm_2leaf_s0_b", "2 leaf paths, 0 siblings, depth0 in {5,256,257,MAX}", "quick"),
-        ("c18_mm_2leaf_s2_a", "2 leaf paths, 2 siblings, depth0 in {0,1,2,3}", "quick"),
-        ("c18_mm_2leaf_s2_b", "2 leaf paths, 2 siblings, depth0 in {5,256,257,MAX}", "quick"),
-        ("c18_mm_leafterm_s1_a", "leaf + terminator(depth 2), 1 sibling, depth0 in {0,1,2,3}", "quick"),
-        ("c18_mm_leafterm_s1_b", "leaf + terminator(depth 2), 1 sibling, depth0 in {5,256,257,MAX}", "quick"),
-        ("c18_mm_termleaf_s1_a", "terminator(depth 2) + leaf, 1 sibling, depth0 in {0,1,2,3}", "quick"),
-        ("c18_mm_2term_s1_a", "terminator(depth 1) + terminator(depth 3), 1 sibling, depth0 in {0,1,2,3}", "quick"),
-        ("c18_mm_2term_s1_b", "terminator(depth 1) + terminator(depth 3), 1 sibling, depth0 in {5,256,257,MAX}", "quick"),
-        ("c18_mm_2term_s0_a", "terminator(depth 2) + terminator(depth 4), 0 siblings, depth0 in {0,1,2,3}", "quick"),
-        ("c18_mm_3leaf_s1_a", "3 leaf paths, 1 sibling, depth0 in {1,2}, depth2 in {0,1,2,3}", "thorough"),
-        ("c18_mm_3mixed_s2_a", "terminator(2) + leaf + terminator(3), 2 siblings, depth0 in {1,2}, depth2 in {0,1,2,3}", "thorough"),
+    m2 = [
+        ("c18_m2_term1_term3_valid", "terminator(depth 1) + terminator(depth 3), claimed depths (1, 3), 1 sibling (first may be a prefix of the second)"),
+        ("c18_m2_term1_term3_d0", "terminator(1) + terminator(3), claimed depths (0, 3), 1 sibling"),
+        ("c18_m2_term2_leaf_deep", "terminator(2) + leaf, claimed depths (2, 257), 1 sibling"),
+        ("c18_m2_2leaf_max", "2 leaves, claimed depths (usize::MAX, 2), 2 siblings"),
+        ("c18_m2_2leaf_valid", "2 leaves, claimed depths (2, 2), 2 siblings"),
+        ("c18_m2_leaf_term_short_sibs", "leaf + terminator(2), claimed depths (3, 2), 0 siblings"),
+        ("c18_m3_mixed", "terminator(2) + leaf + terminator(3), claimed depths (2, 3, 3), 2 siblings"),
     ]
-    for h, d, tier in mm:
-        obl.append(K("c18_multi::" + h, tier=tier, unwind=10, classes="multi3" if "3" in h.split("_")[2] else "multi2",
-                     timeout_s=1500 if tier == "quick" else 7200, mem_gb=12, memsafe=(tier != "quick"),
-                     desc="verify_multi_proof never panics: " + d + ", depth1 over the menu {0,1,2,3,5,256,257,usize::MAX}",
-                     bounds="shape: " + d + "; claimed depths concrete from the boundary menu (all combinations unrolled inside the "
-                            "harness), key bits symbolic in a 4-bit window (adjacent leaf keys distinct), siblings/values symbolic",
-                     functions=FM, assumes=[ASSUME_HAVOC, "adjacent leaf keys differ (identical keys: harness c18_mv_2leaf_equal)"]))
-    obl.append(K("c18_multi::c18_mv_2leaf_equal", unwind=10, classes="multi_eq", timeout_s=900, mem_gb=8, memsafe=False,
+    for h, d in m2:
+        obl.append(K("c18_multi::" + h, tier="thorough", unwind=10, classes="multi3" if "m3" in h else "multi2",
+                     timeout_s=5400, mem_gb=40, memsafe=False, kani_args=["-Z", "stubbing"],
+                     desc="verify_multi_proof never panics: " + d,
+                     bounds="shape: " + d + "; claimed depths concrete, key bits symbolic in a 4-bit window (adjacent leaf keys distinct), "
+                            "siblings/values symbolic; hash_path replaced by a value-havoc stub (kani::stub)",
+                     functions=FM, assumes=[ASSUME_HAVOC, "hash_path stubbed (total; covered by c18_pv_*)",
+                                            "adjacent leaf keys differ (identical keys: harness c18_mv_2leaf_equal)"]))
+    obl.append(K("c18_multi::c18_mv_2leaf_equal", tier="thorough", unwind=10, classes="multi_eq", timeout_s=900, mem_gb=8, memsafe=False,
                  desc="two leaf paths with the same symbolic 32-byte key are rejected, never panic",
                  bounds="2 leaf paths, 1 sibling, symbolic depths, identical symbolic key; BitSlice::partial_cmp unwound 258",
                  functions=FM, assumes=[ASSUME_HAVOC]))
@@ -280,6 +277,35 @@ M_META_BYTE = M("meta_byte", "meta_byte",
                 "every u64 hash (bit-vector encoding)", assumes=[ASSUME_M])
 
 
+def P(name, desc, bounds, tier="quick", **kw):
+    d = dict(engine="P", name=name, module="protocol", func=name, tier=tier, desc=desc, bounds=bounds, timeout_s=180)
+    d.update(kw)
+    return d
+
+
+ASSUME_P = ("control/event structure only: a path is a sequence of <= 120 MIR basic blocks of the named function (cleanup/unwind "
+            "edges removed, loops iterated freely within the bound), every branch a free choice except switches on one unmodified "
+            "local; callee bodies are separate obligations; the bytes written and other threads are not modelled; events are "
+            "recognised by callee name and by the source text under the call's MIR span")
+P_BOUNDS = "every CFG path of <= 120 basic-block steps from the function entry"
+
+P_RECOVER_FSYNC = P("recover_fsync", "bitbox::recover: every HT write is followed by fsync(ht) before truncate_wal", P_BOUNDS, assumes=[ASSUME_P])
+P_WRITEOUT_FSYNC = P("writeout_fsync", "write_wal / write_ht / Meta::write: data written is fsynced before Ok is returned", P_BOUNDS, assumes=[ASSUME_P])
+P_SYNC_ORDER = P("sync_order", "Sync::sync: wait_pre_meta(bitbox), wait_pre_meta(beatree) complete before Meta::write is issued; "
+                 "post_meta / wait_post_meta only after Meta::write", P_BOUNDS, assumes=[ASSUME_P])
+P_NO_SWALLOW = P("no_swallow", "write_ht, write_wal, truncate_wal, recover, Meta::write, Sync::sync, bitbox wait_pre_meta/post_meta: every "
+                 "io::Result / anyhow::Result / CompleteIo / TaskResult value is inspected, propagated or handed on before it is dropped",
+                 P_BOUNDS, assumes=[ASSUME_P])
+P_COMMIT_CHECK = P("commit_check_first", "FinishedSession::{commit, try_commit_nonblocking}, Overlay::{commit, try_commit_nonblocking}: the "
+                   "previous-root comparison precedes the rollback-log append, mark_committed and Store::commit on every path", P_BOUNDS,
+                   assumes=[ASSUME_P])
+P_POISON = P("store_commit_poison", "Store::commit: poisoned is loaded before Sync::sync; an Err from Sync::sync is returned only after "
+             "poisoned was stored", P_BOUNDS, assumes=[ASSUME_P])
+P_RECOVER_ORDER = P("recover_order", "bitbox::recover: no HT write after the WAL was truncated", P_BOUNDS, assumes=[ASSUME_P])
+P_PRE_META = P("pre_meta_no_ht_write", "bitbox pre-meta phase (begin_sync task, WAL writeout task, prepare_sync, begin_sync, wait_pre_meta) "
+               "issues no HT write; post_meta truncates the WAL only after write_ht returned", P_BOUNDS, assumes=[ASSUME_P])
+
+
 def _nomt_family(module, names, desc, bounds, functions, **kw):
     out = []
     for nm in names:
@@ -337,6 +363,29 @@ PROPERTIES = {
             "outside": ["multi-commit histories through threads and files", "staged/secondary lookup shadowing, leaf/branch stages, "
                         "bulk split, branch updater, overflow page I/O", "LeafNode::get (binary search at symbolic offsets into a 4096-byte "
                         "page exhausts CBMC's propositional reduction: measured OOM at 24 GB) - see DESIGN.md"]},
+    "C03": {"level": "model_checking", "obligations": [P_SYNC_ORDER, P_RECOVER_ORDER, P_PRE_META],
+            "explanation": "Protocol order: bounded model checking (z3) of the MIR control/event structure of the commit and recovery "
+                           "orchestration - the order in which durable effects are issued relative to the single switch-over (Meta::write).",
+            "outside": ["that the bytes reachable from the old/new meta decode to the old/new state", "beatree / rollback controllers' "
+                        "internals, rollback-in-progress crashes, Store::open order", "thread interleavings of the spawned tasks"]},
+    "C04": {"level": "model_checking", "obligations": [P_RECOVER_FSYNC, P_WRITEOUT_FSYNC, P_SYNC_ORDER, P_PRE_META],
+            "explanation": "Protocol order: every write the new state depends on is covered by a completed fsync before the function that "
+                           "issued it reports success / before the redo log is discarded; decided by z3 over the MIR event structure; a "
+                           "counterexample is replayed as a syscall trace (strace) of a real crash-recovery run.",
+            "outside": ["beatree (ln/bbn) and rollback seglog fsync discipline", "torn sectors, lying fsync", "content-level equivalence"]},
+    "C12": {"level": "model_checking", "obligations": [P_COMMIT_CHECK],
+            "explanation": "In each of the four commit entry points the previous-root check dominates every effect; counterexamples are "
+                           "replayed as concrete API histories (stale commit, then rollback / overlay-chain completeness).",
+            "outside": ["interleavings of two racing committers", "effects hidden inside Store::commit on the accepted path"]},
+    "C14": {"level": "model_checking", "obligations": [P_NO_SWALLOW, P_POISON, P_SYNC_ORDER],
+            "explanation": "No fallible I/O value is dropped uninspected in the bitbox/meta/sync orchestration; an error from Sync::sync "
+                           "poisons the store before it is returned; a failure before the switch-over returns before any post-meta step. "
+                           "Counterexamples are replayed with injected page-write failures against the real crate.",
+            "outside": ["beatree / rollback / seglog error paths", "hangs (channel pairing)", "what the reopened state is"]},
+    "C17": {"level": "model_checking", "obligations": [P_PRE_META, P_SYNC_ORDER, P_RECOVER_ORDER],
+            "explanation": "Until Meta::write returned, the bitbox side writes only the WAL: no HT page write, no WAL truncation. Decided "
+                           "over the MIR event structure of the pre-meta functions.",
+            "outside": ["beatree page allocation (new data only to free / beyond-end pages)", "rollback seglog pruning", "free-list correctness"]},
     "C13": {"level": "model_checking", "obligations": [M_SHARD, M_SHARD_SPEC],
             "explanation": "Configuration arithmetic only: the mapping of root children to commit workers / cache shards is decided "
                            "symbolically for every worker count 1..64 and every child.",
